@@ -376,6 +376,9 @@ func (c02) Exec(c Case) []string {
 	if len(c.Variant) > 0 {
 		variant = c.Variant[0]
 	}
+	if variant == "bytes" { // byte-level tokenizer tie: c02bytes.go
+		return c02bExec(c)
+	}
 	hdr, def := c02header(variant)
 	var items []*c02tree
 	var obs []string
@@ -1029,6 +1032,9 @@ func (c02) Generate(rng *rand.Rand, tier string, st *Stats) []Case {
 
 	// 6. malformed streams: truncations at every offset and random corruptions (no model; bounded time, no panic)
 	cases = append(cases, c02malformed(rng, g, full, st)...)
+
+	// 7. byte level: the tokenizer of encoding/xml against the Lean character-level model (c02bytes.go)
+	cases = append(cases, c02bytesCases(rng, g, full, st)...)
 	return cases
 }
 
